@@ -528,3 +528,52 @@ def count_assigned_in_full_loop(eff, fn, count_member, db):
                 if fl and fl[-1] == count_member and c0 is not None and c0[0] == "var" and c0[1] == d:
                     return True
     return False
+
+
+def sibling_setters(db, eff, chk, rid, cls, reader="erode"):
+    """overloads of one setter must agree on the state they replace: a member that one overload of
+    set_x writes, that a sibling overload (writing a strict subset of it) leaves alone, and that the
+    reader method reads, is stale after the sibling was called (a stride, a flag or a cache describing
+    the previous value).  Decided on the effect summaries (callees included)."""
+    n = 0
+    for uname in sorted(db.units):
+        groups = {}
+        rd = None
+        for f in db.fns(unit=uname, pred=lambda f: f.cls == cls and not f.is_lambda and not f.is_ctor):
+            if f.name.startswith("set_"):
+                groups.setdefault(f.name, []).append(f)
+            elif f.name == reader and f.body is not None:
+                rd = f
+        if rd is None:
+            continue
+
+        def fields(fn, kind):
+            out = set()
+            for (k, p, h) in eff.summary(fn).effects:
+                if k == kind and p and p[0] == ("this",):
+                    fl = fields_of(p)
+                    if fl:
+                        out.add(fl[0])
+            return out
+        R = fields(rd, "r") | fields(rd, "w")
+        for name, fs in sorted(groups.items()):
+            if len(fs) < 2:
+                continue
+            W = [(f, fields(f, "w")) for f in fs]
+            for f, wf in W:
+                for g, wg in W:
+                    if f is g:
+                        continue
+                    n += 1
+                    stale = sorted((wf - wg) & R) if (wg and wg < wf) else []
+                    chk.ob(rid, "[%s] %s(%s) against %s(%s)" % (
+                        uname, name, ", ".join(fn_t(g, p) for p in g.params), name, ", ".join(fn_t(f, p) for p in f.params)),
+                        not stale, where=g.ploc, function=g.bn, construct="sibling-setter(%s)" % ",".join(stale or ["-"]),
+                        detail="" if not stale else "this overload replaces %s but not %s, which its sibling "
+                        "overload also updates and %s() reads: after this overload %s still describes the previous "
+                        "value" % (sorted(wg), stale, reader, stale), extra={"unit": uname})
+    return n
+
+
+def fn_t(fn, p):
+    return fn.type(p.get("t")).replace("const ", "").replace("fastscapelib::", "")[:40]
